@@ -9,8 +9,8 @@
 EXTENDS FSChainBase
 
 \* SubscribeForNewEpoch(contract): an already subscribed contract returns silently
-NSubscribe(subs, s) == IF s \in Range(subs) THEN subs ELSE Append(subs, s)
-NSubNotifies(subs, s) == s \notin Range(subs)
+NSubscribe(subs, s) == IF s \in Rng(subs) THEN subs ELSE Append(subs, s)
+NSubNotifies(subs, s) == s \notin Rng(subs)
 \* NewEpoch(e) guard after the Alphabet witness
 NEpochOk(cur, e) == e > cur
 =============================================================================
